@@ -2,3 +2,6 @@ import RustCcModel.Properties.C01
 #print axioms RustCc.C01.collectPass_computes_candidates
 #print axioms RustCc.C01.candidates_unreachable
 #print axioms RustCc.C01.reachable_not_candidate
+#print axioms RustCc.C01.reachable_pass_candidates_unreferenced
+#print axioms RustCc.C01.reachable_object_not_candidate
+#print axioms RustCc.C01.no_dangling_pointer
